@@ -72,8 +72,9 @@ func (jwk JWK) Validate() error {
 			return errors.New("JWK x is missing")
 		}
 
-		// an elliptic curve public key has two coordinates (RFC 7518, 6.2.1)
-		if jwk.Kty() == "EC" && jwk.Y() == "" {
+		// an elliptic curve public key has two coordinates (RFC 7518, 6.2.1); a BLS12-381 G2 key, which the
+		// JWK libraries also write with kty EC, is one compressed point in x and has no y
+		if jwk.Kty() == "EC" && jwk.Y() == "" && jwk.Crv() != "BLS12381_G2" {
 			return errors.New("JWK y is missing")
 		}
 	}
